@@ -151,7 +151,285 @@ def ob_truncate(chk, P, maxlen):
         ob.absorb(ex)
 
 
+# ============================================================================ simple string filters against independent symbolic references
+from mirsym.models.strings import is_whitespace_expr, upper_expr, lower_expr, ch_expr
+
+
+def str_value(chars):
+    return value_scalar(Adt('ScalarCow', None, [Adt('ScalarCowEnum', 'Str', [StrV(chars, 'KStringCow')])]))
+
+
+def eq_chars(a, b):
+    if len(a) != len(b): return z3.BoolVal(False)
+    cs = []
+    for x, y in zip(a, b):
+        if isinstance(x, int) and isinstance(y, int):
+            if x != y: return z3.BoolVal(False)
+        else: cs.append(ch_expr(x) == ch_expr(y))
+    return z3.And(*cs) if cs else z3.BoolVal(True)
+
+
+def bool_expr(p): return z3.BoolVal(p) if isinstance(p, bool) else p
+
+
+def spec_trim(left, right):
+    def spec(cs, args, res):
+        n = len(cs); good = []
+        ws = [bool_expr(is_whitespace_expr(c)) for c in cs]
+        for a in range(n + 1):
+            for b in range(a, n + 1):
+                if not left and a != 0: continue
+                if not right and b != n: continue
+                conds = []
+                if left: conds += ws[:a] + ([z3.Not(ws[a])] if a < n else [])
+                if right: conds += ws[b:] + ([z3.Not(ws[b - 1])] if b > a else [])
+                if left and right and a == n and b != n: continue
+                good.append(z3.And(*conds, eq_chars(res, cs[a:b])))
+        return z3.Or(*good)
+    return spec
+
+
+def spec_map(f):
+    return lambda cs, args, res: eq_chars(res, [f(c) for c in cs])
+
+
+def spec_capitalize(cs, args, res):
+    return eq_chars(res, ([upper_expr(cs[0])] + list(cs[1:])) if cs else [])
+
+
+def spec_strip_newlines(cs, args, res):
+    good = []
+    for mask in itertools.product((False, True), repeat=len(cs)):
+        conds = [(z3.Or(c == 10, c == 13) if not keep else z3.And(c != 10, c != 13)) for c, keep in zip(cs, mask)]
+        good.append(z3.And(*conds, eq_chars(res, [c for c, keep in zip(cs, mask) if keep])))
+    return z3.Or(*good) if good else z3.BoolVal(len(res) == 0)
+
+
+def spec_newline_to_br(cs, args, res):
+    good = []
+    for mask in itertools.product((False, True), repeat=len(cs)):
+        out = []
+        for c, nl in zip(cs, mask): out += ([ord(x) for x in '<br />\n'] if nl else [c])
+        good.append(z3.And(*[(c == 10) if nl else (c != 10) for c, nl in zip(cs, mask)], eq_chars(res, out)))
+    return z3.Or(*good) if good else z3.BoolVal(len(res) == 0)
+
+
+def spec_first_last(first):
+    return lambda cs, args, res: eq_chars(res, ([cs[0]] if first else [cs[-1]]) if cs else [])
+
+
+def scan_spec(cs, pat, build, limit=None):
+    """reference for replace/remove/split: truth table over 'pattern occurs at position i', scanned leftmost-non-overlapping"""
+    n, m = len(cs), len(pat)
+    positions = list(range(0, n - m + 1)) if m else []
+    occ = {i: eq_chars(cs[i:i + m], pat) for i in positions}
+    good = []
+    for bits in itertools.product((False, True), repeat=len(positions)):
+        table = dict(zip(positions, bits))
+        pieces = []; start = 0; i = 0; hits = 0
+        while i <= n - m and m:
+            if table.get(i) and (limit is None or hits < limit):
+                pieces.append(cs[start:i]); start = i + m; i += m; hits += 1
+            else: i += 1
+        pieces.append(cs[start:])
+        good.append(z3.And(*[(occ[i] if b else z3.Not(occ[i])) for i, b in table.items()], build(pieces)))
+    return z3.Or(*good) if good else build([cs])
+
+
+def spec_replace(limit, with_to):
+    def spec(cs, args, res):
+        pat = args[0]; to = args[1] if with_to and len(args) > 1 else []
+        if not pat:
+            return z3.BoolVal(True)        # empty search string: std semantics (insert at every boundary) -- not specified by the property
+        def build(pieces):
+            out = []
+            for k, p in enumerate(pieces):
+                if k: out += list(to)
+                out += list(p)
+            return eq_chars(res, out)
+        return scan_spec(cs, pat, build, limit)
+    return spec
+
+
+SIMPLE = [
+    # (filter struct, args struct or None, [(arg field, max len)], spec, template suffix for replay, python reference)
+    ('StripFilter', None, [], spec_trim(True, True), 'strip', lambda s, a: s.strip(''.join(chr(c) for lo, hi in __import__('mirsym.models.strings', fromlist=['WS_RANGES']).WS_RANGES for c in range(lo, hi + 1)))),
+    ('LstripFilter', None, [], spec_trim(True, False), 'lstrip', None),
+    ('RstripFilter', None, [], spec_trim(False, True), 'rstrip', None),
+    ('UpcaseFilter', None, [], spec_map(upper_expr), 'upcase', None),
+    ('DowncaseFilter', None, [], spec_map(lower_expr), 'downcase', None),
+    ('CapitalizeFilter', None, [], spec_capitalize, 'capitalize', None),
+    ('StripNewlinesFilter', None, [], spec_strip_newlines, 'strip_newlines', None),
+    ('AppendFilter', 'AppendArgs', [('string', 2)], lambda cs, a, r: eq_chars(r, list(cs) + list(a[0])), 'append: a0', None),
+    ('PrependFilter', 'PrependArgs', [('string', 2)], lambda cs, a, r: eq_chars(r, list(a[0]) + list(cs)), 'prepend: a0', None),
+    ('ReplaceFilter', 'ReplaceArgs', [('search', 2), ('replace', 1)], spec_replace(None, True), 'replace: a0, a1', None),
+    ('ReplaceFirstFilter', 'ReplaceFirstArgs', [('search', 2), ('replace', 1)], spec_replace(1, True), 'replace_first: a0, a1', None),
+    ('RemoveFilter', 'RemoveArgs', [('search', 2)], spec_replace(None, False), 'remove: a0', None),
+    ('RemoveFirstFilter', 'RemoveFirstArgs', [('search', 2)], spec_replace(1, False), 'remove_first: a0', None),
+    ('NewlineToBrFilter', None, [], spec_newline_to_br, 'newline_to_br', None),
+    ('FirstFilter', None, [], spec_first_last(True), 'first', None),
+    ('LastFilter', None, [], spec_first_last(False), 'last', None),
+]
+
+
+def ob_simple_filters(chk, P, maxlen):
+    for (filt, argsty, argspec, spec, tsuffix, _pyref) in SIMPLE:
+        name = tsuffix.split(':')[0]
+        with chk.obligation(f'{name}/strings', f'{name}: the documented function of the input characters (independent symbolic reference), for every string; no panic',
+                            {'input': f'0..{maxlen} characters, each any Unicode scalar value', 'arguments': ', '.join(f'{a}: 0..{k} characters' for a, k in argspec) or 'none',
+                             'case mapping': 'ASCII exact, non-ASCII as an uninterpreted per-character function (multi-character expansions such as ß -> SS are outside)'}) as ob:
+            ex = Executor(P, models_with([])); ex.seed = chk.seed; ex.max_steps = 20000
+            fn = P.find_method(filt, 'evaluate', 'Filter', 'lib')
+            arg_lens = list(itertools.product(*[range(0, k + 1) for _, k in argspec])) if argspec else [()]
+            for n in range(maxlen + 1):
+                for lens in arg_lens:
+                    st = State()
+                    cs = sym_string(st, n)
+                    argv = [sym_string(st, ln, f'a{i}_') for i, ln in enumerate(lens)]
+                    if argsty:
+                        fields = [expr_stub(str_value(a), f'arg{i}') if i == 0 or True else None for i, a in enumerate(argv)]
+                        # optional second argument (replace): Some(expr)
+                        struct_fields = []
+                        for i, ((fname, _), e) in enumerate(zip(argspec, fields)):
+                            struct_fields.append(Some(e) if (fname == 'replace') else e)
+                        self_ = Adt(filt, None, [Adt(argsty, None, struct_fields, [a for a, _ in argspec])], ['args'])
+                    else:
+                        self_ = Adt(filt, None, [])
+                    for s2, kind, val in ex.run(fn, [st.ref(self_), st.ref(str_value(cs)), st.ref(Opaque(('RT',)))], st):
+                        ob.paths += 1; ob.reached()
+                        def report(role, what, m):
+                            s = model_string(m, cs); av = [model_string(m, a) for a in argv]
+                            g = {'s': s}; g.update({f'a{i}': a for i, a in enumerate(av)})
+                            tpl = '[{{ s | ' + tsuffix + ' }}]'
+                            ob.violation(role, f'{what}: {s!r} | {tsuffix} with {av}', {'input': s, 'args': av}, {'kind': 'template', 'template': tpl, 'globals': g, '_py': name},
+                                         py_confirm(name, s, av))
+                        if kind == 'panic':
+                            report(f'{name}/panic', f'{name} panics ({val})', ob.decide(ex, s2.conds, z3.BoolVal(True))); continue
+                        res = result_string(s2, val)
+                        if res is None:
+                            report(f'{name}/not-a-string', f'{name} returns {val}', ob.decide(ex, s2.conds, z3.BoolVal(True))); continue
+                        post = spec(list(cs), [list(a) for a in argv], res)
+                        m = ob.decide(ex, s2.conds, z3.Not(post))
+                        if m is not None:
+                            ascii_only = [z3.ULT(c, 128) for c in list(cs) + [x for a in argv for x in a]]
+                            m2 = ob.decide(ex, s2.conds + ascii_only, z3.Not(post))
+                            mm = m2 if m2 is not None else m
+                            got = ''.join(chr(mm.eval(ch_expr(c), model_completion=True).as_long()) for c in res)
+                            report(f'{name}/wrong-result' + ('' if m2 is not None else '/only-with-non-ascii'), f'{name} returns {got!r}', mm)
+                ob.sample({'len': n})
+            ob.absorb(ex)
+
+
+WS_CHARS = ''.join(chr(c) for lo, hi in [(0x09, 0x0D), (0x20, 0x20), (0x85, 0x85), (0xA0, 0xA0), (0x1680, 0x1680), (0x2000, 0x200A), (0x2028, 0x2029), (0x202F, 0x202F), (0x205F, 0x205F), (0x3000, 0x3000)] for c in range(lo, hi + 1))
+
+
+def py_reference(name, s, av):
+    if name == 'strip': return s.strip(WS_CHARS)
+    if name == 'lstrip': return s.lstrip(WS_CHARS)
+    if name == 'rstrip': return s.rstrip(WS_CHARS)
+    if name == 'upcase': return s.upper() if all(len(c.upper()) == 1 for c in s) else None
+    if name == 'downcase': return s.lower() if all(len(c.lower()) == 1 for c in s) else None
+    if name == 'capitalize': return (s[0].upper() + s[1:]) if s and len(s[0].upper()) == 1 else (s if not s else None)
+    if name == 'strip_newlines': return s.replace('\n', '').replace('\r', '')
+    if name == 'append': return s + av[0]
+    if name == 'prepend': return av[0] + s
+    if name == 'replace': return s.replace(av[0], av[1]) if av[0] else None
+    if name == 'replace_first': return s.replace(av[0], av[1], 1) if av[0] else None
+    if name == 'remove': return s.replace(av[0], '') if av[0] else None
+    if name == 'remove_first': return s.replace(av[0], '', 1) if av[0] else None
+    if name == 'newline_to_br': return s.replace('\n', '<br />\n')
+    if name == 'first': return s[:1]
+    if name == 'last': return s[-1:]
+    return None
+
+
+def py_confirm(name, s, av):
+    exp = py_reference(name, s, av)
+    def f(r):
+        if exp is None: return r.get('outcome') == 'panic'
+        return r.get('outcome') != 'ok' or r.get('output') != '[' + exp + ']'
+    return f
+
+
+def ob_size(chk, P, maxlen):
+    with chk.obligation('size/strings', 'size of a string is its number of CHARACTERS', {'input': f'0..{maxlen} characters, each any Unicode scalar value'}) as ob:
+        ex = Executor(P, models_with([])); ex.seed = chk.seed
+        fn = P.find_method('SizeFilter', 'evaluate', 'Filter', 'lib')
+        for n in range(maxlen + 1):
+            st = State(); cs = sym_string(st, n)
+            for s2, kind, val in ex.run(fn, [st.ref(Adt('SizeFilter', None, [])), st.ref(str_value(cs)), st.ref(Opaque(('RT',)))], st):
+                ob.paths += 1; ob.reached()
+                r = None
+                if kind == 'ret' and val.variant == 'Ok':
+                    inner = val.items[0].items[0].items[0] if val.items[0].variant == 'Scalar' else None
+                    if inner is not None and inner.variant == 'Integer': r = inner.items[0].e
+                post = (r == n) if r is not None else z3.BoolVal(False)
+                m = ob.decide(ex, s2.conds, z3.Not(post))
+                if m is not None:
+                    m2 = ob.decide(ex, s2.conds + [z3.ULT(c, 128) for c in cs], z3.Not(post))
+                    mm = m2 if m2 is not None else m
+                    s = model_string(mm, cs)
+                    ob.violation('size/wrong-count' + ('' if m2 is not None else '/only-with-multibyte-characters'), f'{s!r} | size = {mm.eval(r, model_completion=True) if r is not None else val}', {'input': s},
+                                 {'kind': 'template', 'template': '[{{ s | size }}|{{ s.size }}]', 'globals': {'s': s}}, lambda res, k=len(s): res.get('output') != f'[{k}|{k}]')
+            ob.sample({'len': n})
+        ob.absorb(ex)
+
+
+def ob_filter_chain(chk, P):
+    with chk.obligation('FilterChain::evaluate/composition', 'the value of `entry | f1 | f2 | ...` is fn(...f2(f1(entry))): every filter receives exactly the previous result, in order; '
+                        'the first failing filter (or a failing entry) ends the evaluation with its error',
+                        {'filters': '0..4 abstract filters (each Ok or Err)', 'entry': 'abstract value, may fail'}) as ob:
+        from mirsym.models import core as _core
+        ex = Executor(P, models_with([])); ex.seed = chk.seed
+        fn = P.find_method('FilterChain', 'evaluate', None, 'core')
+        def mk_filter(i):
+            errs = z3.Bool(f'f{i}_errs')
+            def h(ctx, me, args, st):
+                m = method_of(ctx.callee)
+                if m != 'evaluate': return None
+                inp = st.deref_all(args[1])
+                tok = value_token(inp) if isinstance(inp, (Opaque, Abs)) else repr(inp)
+                log_call(st, 'filter', (i, tok))
+                def g():
+                    for s2, e in ctx.ex.fork_bool(st, errs):
+                        if e: yield s2, 'ret', Err(Adt('LiquidError', None, [Opaque(('msg', f'filter {i}'))]))
+                        else: yield s2, 'ret', Ok(Abs('token', found_handler, ('F', i, tok)))
+                return g()
+            return Abs(f'filter{i}', h), errs
+        for k in range(0, 5):
+            st = State()
+            fs = [mk_filter(i) for i in range(k)]
+            entry = expr_stub(Abs('token', found_handler, ('ENTRY',)), 'entry', True)
+            self_ = st.ref(Adt('FilterChain', None, [entry, VecV([st.ref(f, True) for f, _ in fs])], ['entry', 'filters']))
+            for s2, kind, val in ex.run(fn, [self_, st.ref(Opaque(('RT',)))], st):
+                ob.paths += 1; ob.reached()
+                m = ob.decide(ex, s2.conds, z3.BoolVal(True))
+                entry_err = z3.is_true(m.eval(z3.Bool('entry_errs'), model_completion=True))
+                ferr = [z3.is_true(m.eval(e, model_completion=True)) for _, e in fs]
+                seen = [c[1] for c in calls(s2, 'filter')]
+                want_calls = []; tok = ('ENTRY',); failed = entry_err
+                if not entry_err:
+                    for i in range(k):
+                        want_calls.append((i, tok))
+                        if ferr[i]: failed = True; break
+                        tok = ('F', i, tok)
+                bad = None
+                if kind == 'panic': bad = f'panics: {val}'
+                elif seen != want_calls: bad = f'filters were called as {seen}, expected {want_calls}'
+                elif failed != (val.variant == 'Err'): bad = f'result {val.variant} but a step failed={failed}'
+                elif not failed and value_token(s2.deref_all(val.items[0])) != tok: bad = f'result {val.items[0]!r}, expected {tok}'
+                if bad:
+                    sc = {'kind': 'template', 'template': "[{{ ' aXb ' | strip | downcase | append: '!' | replace: 'x', 'yy' | upcase }}][{{ 'a,b' | split: ',' | first | append: nope.x | upcase }}]", '_e': None}
+                    ob.violation('FilterChain/composition', f'chain of {k} filters: {bad}', {'filters': k}, {'kind': 'template', 'template': "[{{ ' aXb ' | strip | downcase | append: '!' | replace: 'x', 'yy' | upcase }}]"},
+                                 lambda r: r.get('output') != '[AYYB!]')
+            ob.sample({'filters': k})
+        ob.absorb(ex)
+
+
 def run(chk):
     P = chk.program(('core', 'lib'))
     ob_slice(chk, P, 3 if chk.tier == 'quick' else 4)
     ob_truncate(chk, P, 3 if chk.tier == 'quick' else 4)
+    ob_simple_filters(chk, P, 3 if chk.tier == 'quick' else 4)
+    ob_size(chk, P, 3)
+    ob_filter_chain(chk, P)
